@@ -807,3 +807,36 @@ def rule_st_range_end(ctx, R):
                 R.finding(fn, "inclusive-end:insertion-point-0-becomes-entry-0",
                           "%s uses a saturating decrement of a binary-search insertion point (line %d) as the inclusive end of a range (line %d): when every entry is greater than the end bound the insertion point is 0, there is no entry to end at, and index 0 makes the first entry part of the answer (XRANGE s 1-0 5-0 on a stream starting at 10-0 answers 10-0)" % (fn.split("::")[-1], b.bb_line(hit[0]), b.bb_line(i)), b.loc(i))
     R.floor("inclusive_index_ranges_in_stream_reads", n)
+
+
+# ---- R-CG-SETID -----------------------------------------------------------------------------------
+def rule_cg_setid(ctx, R):
+    """XGROUP SETID has exactly its effect: the position stored is the ID the client named (or
+    the last entry's ID for `$`) -- no clamping against the stream (min / max / clamp) on the value
+    flow from the parsed argument into ConsumerGroup::set_id.  A group may be positioned beyond
+    the tail; entries added later at or below that position are then not delivered."""
+    import flow
+    n = 0
+    reach = rules_cmd_arms(ctx, ("XGROUP",))
+    for fn in sorted(reach):
+        b = ctx.prog.bodies.get(fn)
+        if b is None or not fn.startswith("storage::commands::") or "::tests::" in fn:
+            continue
+        for i, t in b.calls():
+            if callee(t) != CG + "set_id" or len(t["a"]) < 2 or op_is_const(t["a"][1]) or b.bbs[i]["cleanup"]:
+                continue
+            n += 1
+            calls = flow.flow_calls(ctx, fn, t["a"][1], seen={(fn, p) for p in range(1, b.nargs + 1)})
+            parsed = any(re.search(r"StreamId::(from_string|parse|from_str)$", c or "") for c, _, _ in calls)
+            clamps = sorted((c, w, bb) for (c, w, bb) in calls if re.search(r"::(min|max|clamp)(::<.*>)?$", c or "") and re.search(r"StreamId|Ord>::|cmp::", c or ""))
+            R.inst(fn, "setid-position", {"function": fn, "at": b.loc(i), "from_the_parsed_argument": parsed, "clamped_by": [shared.short_callee(c) for c, _, _ in clamps][:2]})
+            if clamps:
+                c, w, bb = clamps[0]
+                R.finding(fn, "setid-position:clamped:%s" % re.search(r"::(\w+)(::<.*>)?$", c).group(1),
+                          "the position XGROUP SETID stores has passed through %s (%s): an explicit ID beyond the stream's last entry is moved back to it although the command answers OK, so entries added afterwards at or below the requested position are delivered and counted pending" % (shared.short_callee(c), ctx.prog.bodies[w].loc(bb)), b.loc(i))
+    R.floor("setid_sites", n)
+
+
+def rules_cmd_arms(ctx, names):
+    import rules_cmd
+    return rules_cmd.arms_reach(ctx, names)
